@@ -13,7 +13,7 @@ from pyvc import values as V
 from pyvc import logic
 from pyvc.logic import Forall, Exists, ForallExists
 from pyvc.state import State
-from pyvc.contract import FnContract, Def, DefHeap, DefRes, Clause, ExcCase, Structural, apply_contract
+from pyvc.contract import Lemma, FnContract, Def, DefHeap, DefRes, Clause, ExcCase, Structural, apply_contract
 from pyvc.execute import Exc, Outcome, FieldRef, VTimeout, VGen, VAnyOf, VPyList
 from pyvc.values import Num, VObj, VBool, VStr, VOpaque, VNone, NONE, SList, Unsupported
 from pyvc.lib_base import LibBase
@@ -82,6 +82,12 @@ def owner(st, e):
     return z3.Select(st.heap_arr("requesting_process"), e)
 
 
+# objects allocated outside the store and never handed to it as request tokens (e.g. a conveyor's own signalling
+# events).  Rigid: being foreign is a property of the identity, fixed at allocation; everything the store allocates
+# itself is not foreign by definition (assumed at the store's allocation sites).
+FOREIGN = z3.Function("foreign", z3.IntSort(), z3.BoolSort())
+
+
 class StoreLib(LibBase):
     def __init__(self):
         super().__init__()
@@ -103,11 +109,15 @@ class StoreLib(LibBase):
             return z3.Not(self.is_fifo(cls, old))
         if name == "two-waiting":
             return old.f[QG].len >= 2
+        if name == "two-put-waiting":
+            return old.f[QP].len >= 2
         raise KeyError("unknown chi %r" % name)
 
     def shards(self, cls, fn):
         if fn in ("move_to_ready_items", "fleet_activation_process") and PROFILES[cls]["fleet"]:
             return 8
+        if fn == "move_to_ready_items" and PROFILES[cls]["belt"]:
+            return 16
         return None
 
     def unit_props(self, cls, fn):
@@ -239,10 +249,11 @@ class StoreLib(LibBase):
                                                                "nodup.It", strict_lt=True), ("C02",)))
                 out.append(("I-items.nodup.It/Rd", V.forall_idx2(It, Rd, lambda i, j, a, b: itobj(a).t != b.t,
                                                                   "nodup.It/Rd"), ("C02",)))
+                hints = [(lambda g: lambda i: g(Ri.at(i).t))(st.ghost["inv_rd"])] if "inv_rd" in st.ghost else []
                 out.append(("I-bind.member", ForallExists(
                     lambda i: z3.And(0 <= i, i < Ri.len),
-                    lambda i, j: z3.And(0 <= j, j < Rd.len, Rd.at(j).t == Ri.at(i).t), Rd.len, "bind.member"),
-                    ("C02",)))
+                    lambda i, j: z3.And(0 <= j, j < Rd.len, Rd.at(j).t == Ri.at(i).t), Rd.len, "bind.member",
+                    witnesses=hints), ("C02",)))
             out.append(("I-bind.distinct", V.forall_idx2(Ri, Ri, lambda i, j, a, b: a.t != b.t, "bind.distinct",
                                                           strict_lt=True), ("C02",)))
             fifo = self.is_fifo(cls, st)
@@ -280,6 +291,12 @@ class StoreLib(LibBase):
                 out.append(("I-nodup.%s/%s" % (a, b),
                             V.forall_idx2(f[a], f[b], lambda i, j, x, y: x.t != y.t, "I-nodup.%s/%s" % (a, b)),
                             ("C02", "C07")))
+        for nm in EVENT_LISTS:
+            out.append(("I-foreign." + nm, V.forall_idx(f[nm], lambda i, e: z3.Not(FOREIGN(e.t)), "I-foreign." + nm),
+                        ("C07", "C12")))
+        for k in ("ready_item_event", "resume_event", "activate_fleet"):
+            if k in f:
+                out.append(("I-foreign." + k, z3.Not(FOREIGN(f[k].t)), ("C07", "C12")))
         if p["fleet"]:
             af = f["activate_fleet"].t
             out.append(("I-fleet.af-allocated", z3.And(af >= 0, af < st.next_id), ("C14",)))
@@ -289,6 +306,17 @@ class StoreLib(LibBase):
                 for nm in EVENT_LISTS:
                     out.append(("I-fleet.af-distinct." + nm, V.forall_idx(f[nm], lambda i, e: e.t != af, "af-distinct"),
                                 ("C14",)))
+        if p["belt"]:
+            # the belt's own signalling events are never handed out as request tokens
+            for evn in ("ready_item_event", "resume_event"):
+                be = f[evn].t
+                out.append(("I-belt.%s-allocated" % evn, z3.And(be >= 0, be < st.next_id), ("C12", "C07")))
+                if assume:
+                    out.append(("I-belt.%s-distinct" % evn, st.ghost["tag"](be) == 0, ("C12", "C07")))
+                else:
+                    for nm in EVENT_LISTS:
+                        out.append(("I-belt.%s-distinct.%s" % (evn, nm),
+                                    V.forall_idx(f[nm], lambda i, e: e.t != be, "belt-ev-distinct"), ("C12", "C07")))
         if p["belt"] and cls == "C":
             out.append(("I-belt.items-carry-interruption-bookkeeping", V.forall_idx(It, lambda i, x: z3.And(
                 z3.Not(z3.Select(st.heap_arr("absent:total_interruption_time"), x.items[0].t)),
@@ -356,7 +384,7 @@ class StoreLib(LibBase):
 
     def rely_stable(self, cls):
         """fields no other process ever writes (frame obligation)"""
-        return ("capacity", "mode", "delay", "transit_delay", "trigger_delay")
+        return ("capacity", "mode", "delay", "transit_delay", "trigger_delay", "speed")
 
     def is_fifo(self, cls, st):
         p = PROFILES[cls]
@@ -454,7 +482,7 @@ class StoreLib(LibBase):
         # ---- _do_reserve_put(event)
         def pre_do_rp(st, args):
             e = args["event"].t
-            pre = [("event-untriggered", z3.Not(trig(st, e)))]
+            pre = [("event-untriggered", z3.Not(trig(st, e))), ("event-is-a-token-of-this-store", z3.Not(FOREIGN(e)))]
             if p["belt"] and cls == "C":
                 pre.append(("items-carry-interruption-bookkeeping", V.forall_idx(st.f[ITEMS], lambda i, x: z3.And(
                     z3.Not(z3.Select(st.heap_arr("absent:total_interruption_time"), x.items[0].t)),
@@ -740,7 +768,8 @@ class StoreLib(LibBase):
                 return items
             C["_do_reserve_get"] = FnContract(
                 "_do_reserve_get", [("event", EV, None)],
-                pre=lambda st, args: [("event-untriggered", z3.Not(trig(st, args["event"].t)))],
+                pre=lambda st, args: [("event-untriggered", z3.Not(trig(st, args["event"].t))),
+                                      ("event-is-a-token-of-this-store", z3.Not(FOREIGN(args["event"].t)))],
                 post=post_do_rg_ready, uses_inv=True, keeps_inv=False, inv_skip=skip,
                 modifies=(RG, RE, RI), heap_modifies=("triggered",), result_kind=("bool",), props=("C02", "C04", "C06"))
 
@@ -941,9 +970,73 @@ class StoreLib(LibBase):
                 is_generator=True, props=("C01", "C02", "C04", "C11"))
 
         if p["belt"]:
-            mv = FnContract("move_to_ready_items", [("item", item_kind, None)], is_generator=True, props=("C12",))
-            mv.assumed = True      # the two-phase travel timer with interrupt/resume is NOT verified (see DESIGN.md)
+            def phase1(st, x):
+                if cls == "S":
+                    return st.f["delay"].t
+                return z3.Select(st.heap_arr("length"), itobj(x).t) / st.f["speed"].t
+
+            def belt_mover_entry(st, args):
+                x = args["item"]
+                gi = st.ghost["inv_it"]
+                k = gi(itobj(x).t)
+                g = st.ghost.get("belt")
+                start = g["start"] if g else st.now
+                return [("rely.item-in-transit", z3.And(0 <= k, k < st.f[ITEMS].len, V.eq(st.f[ITEMS].at(k), x))),
+                        ("delay-nonneg", x.items[1].t >= 0),
+                        # put() requires the entry stamp to be `now` and starts this process in the same instant
+                        ("mover-starts-at-the-entry-stamp",
+                         z3.Select(st.heap_arr("conveyor_entry_time"), itobj(x).t) == start)]
+
+            def post_belt_mover(c):
+                o, n = c.old, c.new      # o = state at the last resumption
+                x = c.args["item"]
+                k = o.ghost["inv_it"](itobj(x).t)
+                rd1 = V.list_append(o.f[RD], itobj(x))
+                kg = c.ghost("kg", lambda: n.f[RG].len - o.f[RG].len)
+                kp = c.ghost("kp", lambda: n.f[RP].len - o.f[RP].len)
+                pg = V.list_slice_to(o.f[QG], kg)
+                pp = V.list_slice_to(o.f[QP], kp)
+                g = n.ghost.get("belt") or belt_ghost(n, o)
+                T = x.items[1].t
+                return [
+                    Def(ITEMS, V.list_pop(o.f[ITEMS], k), ("C02", "C12")),
+                    Def(RD, rd1, ("C02", "C12", "C06")),
+                    Clause("kg-range", lambda c: z3.And(0 <= kg, kg <= o.f[QG].len), ("C04",)),
+                    Clause("kp-range", lambda c: z3.And(0 <= kp, kp <= o.f[QP].len), ("C04",)),
+                    Def(QG, V.list_slice_from(o.f[QG], kg), ("C04", "C05")),
+                    Def(RG, V.list_concat(o.f[RG], pg), ("C04", "C05")),
+                    Def(RE, V.list_concat(o.f[RE], pg), ("C02",)),
+                    Def(QP, V.list_slice_from(o.f[QP], kp), ("C04", "C05")),
+                    Def(RP, V.list_concat(o.f[RP], pp), ("C04", "C05")),
+                    Clause("Ri-len", lambda c: n.f[RI].len == o.f[RI].len + kg, ("C02",)),
+                    Clause("Ri-prefix", lambda c: V.forall_idx(o.f[RI], lambda i, y: n.f[RI].at(i).t == y.t, "Ri-prefix"),
+                           ("C02",)),
+                    # C12: the item is offered only after it has *moved* for the full belt travel time
+                    Clause("travel.clock", lambda c: n.now == g["start"] + g["moved"] + g["waited"], ("C12",)),
+                    Clause("travel.moved-at-least-the-belt-travel-time", lambda c: g["moved"] >= T, ("C12",)),
+                    Clause("travel.moved-exactly-the-belt-travel-time",
+                           lambda c: z3.Implies(T >= phase1(n, x), g["moved"] == T), ("C12",)),
+                    Clause("travel.never-stopped-means-exact-arrival",
+                           lambda c: z3.Implies(z3.Not(g["interrupted"]), g["waited"] == 0), ("C12",)),
+                    Clause("travel.waiting-nonneg", lambda c: g["waited"] >= 0, ("C12",)),
+                ]
+            mods = (ITEMS, RD, QG, RG, RE, RI, QP, RP, "active_move_processes")
+            mv = FnContract(
+                "move_to_ready_items", [("item", item_kind, None)], post=post_belt_mover, entry_assume=belt_mover_entry,
+                modifies=mods, heap_modifies=("triggered", "total_interruption_time", "interruption_start_time",
+                                              "conveyor_ready_item_entry_time", "absent:total_interruption_time",
+                                              "absent:interruption_start_time"),
+                is_generator=True, props=("C01", "C02", "C04", "C12"))
+            mv.phase1 = phase1
             C["move_to_ready_items"] = mv
+            # interruption planning for an item that enters a stalled belt: pattern analysis over the belt, delayed
+            # interrupt processes, bookkeeping dictionaries.  NOT verified: assumed to touch none of the request
+            # lists, items or ready items (its only effect is on which mover processes get interrupted when)
+            hn = FnContract("handle_new_item_during_interruption", [("item", item_kind, None)], post=lambda c: [],
+                            uses_inv=False, keeps_inv=False, modifies=("active_move_processes",)
+                            + (("active_delayed_interrupt_processes",) if cls == "C" else ()), props=("C12",))
+            hn.assumed = True
+            C["handle_new_item_during_interruption"] = hn
 
         # ---- reserve_put_cancel
         def post_rpc(c):
@@ -1053,7 +1146,8 @@ class StoreLib(LibBase):
                 ]
             C["_do_reserve_get"] = FnContract(
                 "_do_reserve_get", [("event", EV, None)],
-                pre=lambda st, args: [("event-untriggered", z3.Not(trig(st, args["event"].t)))],
+                pre=lambda st, args: [("event-untriggered", z3.Not(trig(st, args["event"].t))),
+                                      ("event-is-a-token-of-this-store", z3.Not(FOREIGN(args["event"].t)))],
                 post=post_do_rg_f, uses_inv=True, keeps_inv=False, inv_skip=skip, modifies=(RG, RE, ITEMS),
                 heap_modifies=("triggered",), result_kind=("opt", ("bool",)), props=("C02", "C04", "C06"))
 
@@ -1281,6 +1375,15 @@ class StoreLib(LibBase):
                 modifies=(ITEMS,), heap_modifies=("triggered",), is_generator=True, props=("C14", "C20"))
             fa.has_normal_exit = False
             C["fleet_activation_process"] = fa
+        # frame of the `triggered` map: an event that is allocated, is no request token of this store and is not one
+        # of the store's own signalling events keeps its status (parametric lemma; callers instantiate it for
+        # their own events, e.g. the conveyor's one-shot events)
+        def trig_frame(c, e):
+            return z3.Implies(FOREIGN(e), trig(c.new, e) == trig(c.old, e))
+        for nm, con in C.items():
+            if "triggered" in con.heap_modifies and not con.is_generator and not getattr(con, "assumed", False):
+                con.post = (lambda op: lambda c: list(op(c)) + [Lemma("frame.foreign-events-untouched", trig_frame,
+                                                                      ("C07", "C12"))])(con.post)
         return C
 
     # ------------------------------------------------------------------ loop invariants
@@ -1298,7 +1401,27 @@ class StoreLib(LibBase):
             return {0: FleetMoverLoop(lib, cls, ("C01", "C02", "C04", "C14"))}
         if p["fleet"] and fname == "fleet_activation_process":
             return {0: ActivationLoop(lib, cls, ("C14", "C20"))}
+        if p["belt"] and fname == "move_to_ready_items":
+            return {0: BeltPhaseLoop(lib, cls, 0), 1: BeltPhaseLoop(lib, cls, 1)}
         return {}
+
+    # bookkeeping dictionaries of the belt stores (active_move_processes, ...) are outside the modelled state:
+    # membership is unconstrained, deletion and update have no modelled effect (A-bookkeeping, listed in evidence)
+    def member(self, ex, x, lst, st, lineno):
+        if isinstance(lst, VOpaque):
+            b = z3.Bool("opaque_member!%s" % _ctr())
+            return [(bb, s, None) for bb, s in ex.branch(st, b, lineno)]
+        return None
+
+    def delete(self, ex, node, st):
+        import ast
+        outs = None
+        if len(node.targets) == 1 and isinstance(node.targets[0], ast.Subscript):
+            base = node.targets[0].value
+            if (isinstance(base, ast.Attribute) and isinstance(base.value, ast.Name) and base.value.id == "self"
+                    and self.schema(ex.ctx.cls).get(base.attr) == ("opaque",)):
+                outs = [Outcome("next", st)]
+        return outs
 
     def yield_spec(self, cls, fname, con, old, args):
         if con.is_generator:
@@ -1390,6 +1513,7 @@ class StoreLib(LibBase):
             s = st.fork()
             e = s.fresh_obj("event")
             s.heap_set(e, "triggered", VBool(False))
+            s.assume(z3.Not(FOREIGN(e.t)))      # allocated by the store itself
             s.ghost.setdefault("local_events", []).append(e.t)
             return [(e, s)]
         if name == "timeout":
@@ -1547,6 +1671,10 @@ class MoverYields:
         lib, cls = self.lib, self.cls
         p = PROFILES[cls]
         anyof = None
+        evs = []
+        ctx = ex.ctx
+        if p["belt"] and self.con.name == "move_to_ready_items":
+            return self.belt_yield(ex, ordinal, ynode, value, st)
         if isinstance(value, VAnyOf):
             anyof = value
             tmo = [m for m in anyof.members if isinstance(m, VTimeout)]
@@ -1554,16 +1682,33 @@ class MoverYields:
             if len(tmo) != 1 or len(evs) != 1 or len(anyof.members) != 2:
                 raise Unsupported("any_of shape (line %d)" % ynode.lineno)
             value = tmo[0]
+        if isinstance(value, VObj) and value.kind == "proc":
+            # a store timer process waits for its own timer (and trigger event) only: waiting for a process it
+            # has spawned would stop the timer for as long as that process runs (for the fleet: no departure
+            # while a vehicle is on its way, which breaks the one-delay-plus-one-trip bound)
+            ctx.oblige("yield%d.waits-for-timer-or-trigger-only" % ordinal, st, [z3.BoolVal(False)], "yield",
+                       ynode.lineno, ("C14",) if p["fleet"] else ("C13",))
+            return []
         if not isinstance(value, VTimeout):
             raise Unsupported("yield of %r in a store process (line %d)" % (value, ynode.lineno))
-        ctx = ex.ctx
-        for nm, cl, props in lib.invariant(cls, st, side="prove"):
-            ctx.oblige("yield%d.inv.%s" % (ordinal, nm), st, [cl], "yield-inv", ynode.lineno, props)
+        self.check_at_yield(ex, ordinal, ynode, st)
         exp = lib.expected_timeout(cls, self.con, ordinal, self.args, st)
         if exp is not None:
             ctx.oblige("yield%d.timeout-is-%s" % (ordinal, exp[0]), st, [value.delay.t == exp[1]], "yield",
                        ynode.lineno, exp[2])
-        # resume: havoc under the rely
+        s = self.resume(ex, ordinal, st, value.delay.t, anyof_ev=(evs[0].t if anyof is not None else None))
+        return [(NONE, s)]
+
+    def check_at_yield(self, ex, ordinal, ynode, st):
+        """the class invariant must hold whenever the process gives up control"""
+        for nm, cl, props in self.lib.invariant(self.cls, st, side="prove"):
+            ex.ctx.oblige("yield%d.inv.%s" % (ordinal, nm), st, [cl], "yield-inv", ynode.lineno, props)
+
+    def resume(self, ex, ordinal, st, delay, anyof_ev=None, at_most=False):
+        """state at the resumption: every field havocked under the rely.  `delay`: the timer; at_most=True: the
+        process is resumed at some instant up to the timer (interrupt), delay=None: at any later instant (event)"""
+        lib, cls = self.lib, self.cls
+        p = PROFILES[cls]
         s = st.fork()
         tag = "y%d_%s" % (ordinal, _ctr())
         for nm, kind in lib.schema(cls).items():
@@ -1579,13 +1724,18 @@ class MoverYields:
         nid = z3.Int(tag + ".next_id")
         s.assume(nid >= s.next_id)
         s.next_id = nid
-        if anyof is None:
-            s.now = st.now + value.delay.t
+        if anyof_ev is None and delay is not None and not at_most:
+            s.now = st.now + delay
+        elif anyof_ev is None:
+            s.now = z3.Real(tag + ".now")
+            s.assume(s.now >= st.now)
+            if delay is not None:
+                s.assume(s.now <= st.now + delay)
         else:
             # K-any_of: fires at the earliest member: the timer, or the event if that is triggered first
             s.now = z3.Real(tag + ".now")
-            ev = evs[0].t
-            s.assume(z3.And(s.now >= st.now, s.now <= st.now + value.delay.t))
+            ev = anyof_ev
+            s.assume(z3.And(s.now >= st.now, s.now <= st.now + delay))
             s.ghost["woken_by_event"] = ev
             s.ghost["yield_now"] = st.now
             # if the event was already triggered at the yield the condition fires in the same instant;
@@ -1603,17 +1753,61 @@ class MoverYields:
                 s.assume(cl)
         # rely: an event created by this process and never handed out is untouched and unknown to the store
         for ev in st.ghost.get("local_events", []):
+            if any(ev.eq(x) for x in st.ghost.get("fired", [])):
+                continue      # succeeded by this process already
             s.assume(z3.Not(trig(s, ev)))
             s.assume(s.ghost["tag"](ev) == 0)
             s.assume(ev < st.next_id)
-        if anyof is not None:
-            s.pc.append(z3.Or(s.now == st.now + value.delay.t, trig(s, ev)))
+        if anyof_ev is not None:
+            s.pc.append(z3.Or(s.now == st.now + delay, trig(s, anyof_ev)))
         if "batch_len" in s.ghost:
             s.assume(s.ghost["batch_len"] <= s.f[ITEMS].len)   # rely: the batch is still on the vehicle
         s.ghost["resume_old"] = None
         s.ghost["resume_old"] = s.fork()
         s.ghost["entry_now"] = st.now
-        return [(NONE, s)]
+        return s
+
+    # ---- belt movers: timers can be interrupted (simpy.Interrupt), and the process then waits for `resume_event`
+    def belt_yield(self, ex, ordinal, ynode, value, st):
+        """Ghost accounting of the travel: `moved` = time spent in (possibly interrupted) timers, `waited` = time
+        spent waiting for the resume signal.  K-interrupt: a process waiting for a timer of r is resumed either
+        after exactly r, or after some 0 <= e <= r with simpy.Interrupt raised at the yield.
+        A-no-nested-interrupt: a mover waiting for the resume signal is not interrupted again (unchecked)."""
+        ctx = ex.ctx
+        self.check_at_yield(ex, ordinal, ynode, st)
+        g = belt_ghost(st, self.old)
+        outs = []
+        if isinstance(value, VTimeout):
+            r = value.delay.t
+            s = self.resume(ex, ordinal, st, r)
+            set_belt_ghost(s, g, moved=g["moved"] + r)
+            outs.append((NONE, s))
+            s2 = self.resume(ex, ordinal, st, r, at_most=True)
+            set_belt_ghost(s2, g, moved=g["moved"] + (s2.now - st.now), interrupted=z3.BoolVal(True))
+            outs.append((Exc("Interrupt", ynode.lineno), s2))
+            return outs
+        if isinstance(value, VObj) and value.kind == "event":
+            ctx.oblige("yield%d.waits-for-the-resume-signal" % ordinal, st, [value.t == st.f["resume_event"].t], "yield",
+                       ynode.lineno, ("C12",))
+            s = self.resume(ex, ordinal, st, None)
+            set_belt_ghost(s, g, waited=g["waited"] + (s.now - st.now))
+            return [(NONE, s)]
+        raise Unsupported("yield of %r in a belt mover (line %d)" % (value, ynode.lineno))
+
+
+def belt_ghost(st, entry):
+    if "belt" not in st.ghost:
+        st.ghost["belt"] = {"moved": z3.RealVal(0), "waited": z3.RealVal(0), "interrupted": z3.BoolVal(False),
+                            "start": entry.now}
+    return st.ghost["belt"]
+
+
+def set_belt_ghost(s, g, **kw):
+    d = dict(g)
+    d.update(kw)
+    s.ghost["belt"] = d
+    if s.ghost.get("resume_old") is not None:
+        s.ghost["resume_old"].ghost["belt"] = d
 
 
 class HeadOnlyLoop:
@@ -1659,6 +1853,74 @@ class FilterScanLoop:
                     z3.And(n <= j, j < n + i), z3.Not(lib.filt(st, e, It.at(j).t))), [It.len], "scanned"))]
 
 
+class BeltPhaseLoop:
+    """`while remaining > 0: try: start = now; yield timeout(remaining); ...; break  except Interrupt: remaining -=
+    now - start; yield resume_event`  (the two travel phases of the belt movers).
+
+    The loop head is only ever reached at process start or right after a resumption, with no store write in
+    between (syntactic obligation), so it is treated as a resumption point: fields are havocked under the rely.
+    The invariant is the ghost travel account: moved + remaining == time to cover up to the end of this phase."""
+    variant = None
+    props = ("C12",)
+    cut = True      # explored once: the head state does not depend on how the loop was reached
+
+    def __init__(self, lib, cls, phase):
+        self.lib, self.cls, self.phase = lib, cls, phase
+
+    def cut_ghost(self, st):
+        if self.phase == 0:
+            return          # single entry (process start): nothing path-specific yet
+        for k in ("local_events", "fired"):
+            st.ghost.pop(k, None)
+
+    def _rem(self, ex, st):
+        node = ex.ctx.loop_nodes[self.phase]
+        t = node.test
+        if not (t.__class__.__name__ == "Compare" and t.left.__class__.__name__ == "Name" and len(t.ops) == 1
+                and t.ops[0].__class__.__name__ == "Gt"):
+            raise Unsupported("phase loop test shape (line %d)" % node.lineno)
+        v = st.loc.get(t.left.id)
+        if not isinstance(v, Num):
+            raise Unsupported("phase loop counter %s is not a number" % t.left.id)
+        return v.t
+
+    def havoc(self, ex, st, node, ordinal):
+        from pyvc.contract import _fresh_like
+        y = ex.ctx.yields
+        g = belt_ghost(st, ex.ctx.old)
+        s = y.resume(ex, 100 + ordinal, st, None)
+        tag = "ph%d_%s" % (ordinal, _ctr())
+        set_belt_ghost(s, g, moved=z3.Real(tag + ".moved"), waited=z3.Real(tag + ".waited"),
+                       interrupted=z3.Bool(tag + ".interrupted"))
+        for n in ast_assigned(node):
+            cur = s.loc.get(n)
+            s.loc[n] = _fresh_like(cur, "%s.%s" % (tag, n)) if cur is not None else None
+        st.__dict__.update(s.__dict__)
+
+    def inv(self, ex, entry, st, mode):
+        g = belt_ghost(st, ex.ctx.old)
+        x = ex.ctx.args["item"]
+        T = x.items[1].t
+        p1 = ex.ctx.con.phase1(st, x)
+        rem = self._rem(ex, st)
+        out = [("travel.clock", st.now == g["start"] + g["moved"] + g["waited"]),
+               ("travel.waiting-nonneg", g["waited"] >= 0),
+               ("travel.moved-nonneg", g["moved"] >= 0),
+               ("travel.never-stopped-means-no-waiting", z3.Implies(z3.Not(g["interrupted"]), g["waited"] == 0))]
+        if self.phase == 0:
+            out.append(("travel.phase1-account", z3.And(g["moved"] + rem == p1, rem >= 0)))
+            for ev in entry.ghost.get("local_events", []):
+                out.append(("phase1-event-not-fired-yet", z3.Not(trig(st, ev))))
+        else:
+            out.append(("travel.phase2-account", z3.And(g["moved"] + rem == T, g["moved"] >= p1, z3.Or(
+                rem >= 0, z3.And(rem == T - p1, g["moved"] == p1)))))
+        if mode == "prove":
+            ref = st.ghost.get("resume_old") or ex.ctx.old
+            bad = [nm for nm in st.f if st.f[nm] is not ref.f.get(nm)]
+            out.append(("no-store-write-since-the-last-resumption", z3.BoolVal(not bad)))
+        return out
+
+
 class InvLoop:
     """loop whose head invariant is the full class invariant (every list may change in the body)."""
     variant = None
@@ -1692,7 +1954,7 @@ class InvLoop:
         for nm, cl in self.lib.validity(self.cls, st, ex.ctx.con):
             out.append((nm, cl))
         for nm, cl, props in self.lib.invariant(self.cls, st, side=mode):
-            out.append((nm, cl))
+            out.append((nm, cl, props))
         for k, v in st.loc.items():
             if k.startswith("__i") and isinstance(v, Num):
                 out.append(("index-nonneg", v.t >= 0))
@@ -1746,6 +2008,11 @@ class ActivationLoop(InvLoop):
             out.append(("progress.time-advanced-or-activation-event-rearmed",
                         z3.Or(st.now > st.ghost["head_now"], z3.Not(trig(st, af)))))
         return out
+
+
+def ast_walk(node):
+    import ast
+    return ast.walk(node)
 
 
 def ast_assigned(node):
@@ -1812,6 +2079,8 @@ class TriggerLoop:
         out.append(("skipped-not-grantable", z3.Implies(idx > 0, z3.Not(grantable(cls, st)))))
         out.append(("grants-had-room", z3.Implies(g >= 1, grantable(cls, entry))))
         out.append(("no-grant-no-event-touched", z3.Implies(g == 0, st.heap_arr("triggered") == entry.heap_arr("triggered"))))
+        for k, t in enumerate(entry.ghost.get("lemma_terms", [])):
+            out.append(("foreign-events-untouched.%d" % k, z3.Implies(FOREIGN(t), trig(st, t) == trig(entry, t))))
         # structural invariant at the loop head (inverse-function form when assumed, two-variable form as goal)
         return out + self._struct(st, mode)
 
@@ -1820,7 +2089,7 @@ class TriggerLoop:
         for nm, cl, props in self.lib.invariant(self.cls, st, side=mode):
             if nm in StoreLib.STRUCT_SKIP:
                 continue
-            out.append(("struct." + nm, cl))
+            out.append(("struct." + nm, cl, props))
         return out
 
 
